@@ -241,6 +241,17 @@ func (in *objIndex) search(o Object, field string, operator string, value interf
 				fi = fi.Constrain(constrain)
 			}
 
+			// a value which cannot be ordered (NaN) cannot be searched by
+			// bisection: it is different from any indexed value, nothing else
+			if f, ok := iField.Value.(float64); ok && f != f {
+				switch operator {
+				case "!=":
+					return fi.Index, nil
+				case "=", ">", ">=", "<", "<=":
+					return []*indexedField{}, nil
+				}
+			}
+
 			switch operator {
 			case "!=":
 				return fi.SearchNotEqual(iField), nil
